@@ -161,6 +161,40 @@ def build_inputs(chk, wd):
             if d.startswith(b"%PDF-1.5"):
                 open(q, "wb").write(b"%PDF-1." + bytes([rng.choice(b"01234")]) + d[8:])
                 inputs.append(("relabel%d" % i, q, "relabelled-header"))
+    # exact eligible-object counts on and around the multiples of 100 (the split of generated object streams), found by
+    # calibration: members(n extras) is read off a real write, then n is shifted to hit the target
+    def counted_doc(nextra):
+        d = pdfgen.page_doc(1, marker="E")
+        d.objects[1][b"Extras"] = [d.add({b"I": i}) for i in range(nextra)]
+        return pdfgen.write_classic(d)[0]
+
+    def members_of(path):
+        q = path + ".cal"
+        rc, se = filecheck.run_write(path, ["--object-streams=generate", "--compress-streams=n"], q)
+        r = filecheck.strict_read([q])[0] if rc == 0 else {"ok": False}
+        return sum(1 for o in r["objects"] if o["where"][0] == "c") if r.get("ok") else None
+    cal = os.path.join(wd, "cal.pdf")
+    open(cal, "wb").write(counted_doc(50))
+    base = members_of(cal)
+    chk.cov["eligible_count_targets"] = []
+    if base is not None:
+        targets = [99, 100, 101, 200, 300] if quick else [99, 100, 101, 199, 200, 201, 299, 300, 301, 400, 500, 1000]
+        for E in targets:
+            n = 50 + (E - base)
+            if n < 0:
+                continue
+            p = os.path.join(wd, "elig%d.pdf" % E)
+            open(p, "wb").write(counted_doc(n))
+            got = members_of(p)
+            chk.cov["eligible_count_targets"].append({"target": E, "members_in_a_generate_write": got})
+            inputs.append(("elig%d" % E, p, "eligible-count"))
+    # preserved object streams with more members than one index byte can address (255..258; thorough: 700): the input is written
+    # directly, not by qpdf (qpdf itself never generates more than 100 members), and rewritten with the default preserve mode
+    import c17
+    for m in ([255, 256, 257, 300] if quick else [100, 255, 256, 257, 258, 300, 700]):
+        p = os.path.join(wd, "members%d.pdf" % m)
+        open(p, "wb").write(c17.objstm_pdf(m))
+        inputs.append(("members%d" % m, p, "preserved-big-objstm"))
     # corpus
     cf = filecheck.corpus_files()
     cf = [f for f in cf if os.path.getsize(f) <= 60000]
@@ -189,6 +223,11 @@ def run(chk):
     jobs = []
     for name, p, kind in inputs:
         use = cfgs if (kind != "corpus" or not quick) else rng.sample(cfgs, 6)
+        if kind == "eligible-count":
+            use = [["--object-streams=generate"], ["--object-streams=generate", "--compress-streams=n"], ["--qdf", "--object-streams=generate"]]
+        elif kind == "preserved-big-objstm":
+            use = [["--object-streams=preserve"], ["--object-streams=preserve", "--compress-streams=n"], ["--qdf", "--object-streams=preserve"],
+                   ["--object-streams=preserve", "--linearize"]]
         for cfg in use:
             jobs.append((name, p, kind, cfg))
     # boundary sweep aimed at field-width changes around 2^16 (first-page xref stream of a linearized file)
